@@ -13,6 +13,8 @@ def prop_modules(pid):
     source, Props/CxxTies.lean (a module of its own so that a changed fact breaks only the properties that own it)."""
     mods = ['CosetProofs.Props.%s' % pid]
     if os.path.exists(os.path.join(R.LEAN, 'CosetProofs', 'Props', pid + 'Ties.lean')): mods.append('CosetProofs.Props.%sTies' % pid)
+    # Props/CxxEmit.lean: theorems of the property that need lemmas built on top of Props/Cxx.lean (a module of its own to avoid an import cycle)
+    if os.path.exists(os.path.join(R.LEAN, 'CosetProofs', 'Props', pid + 'Emit.lean')): mods.append('CosetProofs.Props.%sEmit' % pid)
     return mods
 
 def declared_theorems(pid):
